@@ -42,6 +42,8 @@ def run(ctx):
     committer = find_committer(ctx)
     appenders = find_appenders(ctx)
     step, roles = find_step(ctx, appenders)
+    from .C10 import length_before_first_write
+    length_before_first_write(ctx, step, roles['VALUESDIR'], 'D3')   # a refused item (bare number) leaves the sequence unchanged
     d1_getitem(ctx, RA)
     d1_contiguity(ctx, RA, step, appenders)
     d4_indextype(ctx)
